@@ -361,7 +361,7 @@ impl Property for C20 {
                     }
                     1 => {
                         // conflicting duplicate: same name, different origin
-                        let dup = format!("<joint name=\"{}\" type=\"revolute\">\n  <origin xyz=\"0.777 0 0\" rpy=\"0 0 0\"/>\n  <axis xyz=\"0 0 1\"/>\n</joint>\n", name);
+                        let dup = format!("<joint name=\"{}\" type=\"revolute\">\n  <origin xyz=\"9.5 0 0\" rpy=\"0 0 0\"/>\n  <axis xyz=\"0 0 1\"/>\n</joint>\n", name);
                         r.xml.replace("</robot>", &format!("{}</robot>", dup))
                     }
                     2 => {
